@@ -3,6 +3,7 @@ package c16
 
 import (
 	"bytes"
+	"errors"
 	"fmt"
 	"math"
 	"testing"
@@ -42,6 +43,26 @@ type Item struct {
 	What  string `json:"what"` // metric batch message
 	Batch Batch  `json:"batch"`
 	SeqID int32  `json:"seq,omitempty"`
+	// FailAt > 0: the encoder's transport refuses to take more than this many bytes for this item
+	// (as the UDP transport does for an over-long batch), the write fails part-way and the item is
+	// given up. The items that follow go through the same protocol object and must be unaffected.
+	FailAt int `json:"failAt,omitempty"`
+}
+
+// limitTransport refuses writes beyond limit bytes (0: no limit).
+type limitTransport struct {
+	thrift.TTransport
+	limit, written int
+}
+
+var errLimit = errors.New("transport: message too long")
+
+func (l *limitTransport) Write(b []byte) (int, error) {
+	if l.limit > 0 && l.written+len(b) > l.limit {
+		return 0, errLimit
+	}
+	l.written += len(b)
+	return l.TTransport.Write(b)
 }
 
 type Case struct {
@@ -97,8 +118,15 @@ func genMetric() *rapid.Generator[Metric] {
 func gen(t *rapid.T) Case {
 	c := Case{Binary: rapid.Bool().Draw(t, "binary")}
 	n := rapid.IntRange(1, 4).Draw(t, "nitems")
-	for i := 0; i < n; i++ {
+	nfail := 0
+	if rapid.IntRange(0, 2).Draw(t, "failing?") == 0 {
+		nfail = rapid.IntRange(1, 7).Draw(t, "nfail")
+	}
+	for i := 0; i < n+nfail; i++ {
 		it := Item{What: rapid.SampledFrom([]string{"metric", "batch", "batch", "message", "message"}).Draw(t, "what")}
+		if i < nfail {
+			it.FailAt = rapid.IntRange(1, 80).Draw(t, "failAt")
+		}
 		var nm int
 		switch rapid.IntRange(0, 9).Draw(t, "sizek") {
 		case 0:
@@ -220,7 +248,8 @@ func run(c Case) (pbt.Outcome, error) {
 	calc := &customtransport.TCalcTransport{}
 	calcProto := fac.GetProtocol(calc) // reused for every structure of the case
 	mem := thrift.NewTMemoryBuffer()
-	encProto := fac.GetProtocol(mem) // reused
+	lim := &limitTransport{TTransport: mem}
+	encProto := fac.GetProtocol(lim) // reused
 	measure := func(write func(p thrift.TProtocol) error) (int32, []byte, error) {
 		calc.ResetCount()
 		if err := write(calcProto); err != nil {
@@ -240,8 +269,32 @@ func run(c Case) (pbt.Outcome, error) {
 		tr, _ := customtransport.NewTBufferedReadTransport(bytes.NewBuffer(b))
 		return fac.GetProtocol(tr)
 	}
+	failed := 0
 	for ii, it := range c.Items {
 		mb := toBatch(it.Batch)
+		if it.FailAt > 0 {
+			// a write the transport refuses part-way: abandoned, nothing judged, state stays behind
+			lim.limit, lim.written = it.FailAt, 0
+			var err error
+			switch it.What {
+			case "metric":
+				if len(mb.Metrics) > 0 {
+					err = mb.Metrics[0].Write(encProto)
+				}
+			case "batch":
+				err = mb.Write(encProto)
+			default:
+				if err = encProto.WriteMessageBegin("emitMetricBatchV2", thrift.ONEWAY, it.SeqID); err == nil {
+					err = (&m3thrift.M3EmitMetricBatchV2Args{Batch: mb}).Write(encProto)
+				}
+			}
+			if err != nil {
+				failed++
+			}
+			lim.limit, lim.written = 0, 0
+			mem.Reset()
+			continue
+		}
 		diffTagCounts := false
 		for i := 1; i < len(mb.Metrics); i++ {
 			if len(mb.Metrics[i].Tags) != len(mb.Metrics[0].Tags) {
@@ -356,6 +409,9 @@ func run(c Case) (pbt.Outcome, error) {
 		out.Classes = append(out.Classes, "binary")
 	} else {
 		out.Classes = append(out.Classes, "compact")
+	}
+	if failed > 0 {
+		out.Classes = append(out.Classes, fmt.Sprintf("after-%d-failed-writes", failed))
 	}
 	return out, errs.Err()
 }
